@@ -5,6 +5,7 @@ plus the six `rotate_from_*` entry points (Model/RotFrom.lean) and `Collection.a
 (class_Collection.py: they change `_children` / `_parent` and touch no path).
 -/
 import MagpyVerif.Model.RotFrom
+import MagpyVerif.Model.Level2
 namespace MagpyVerif
 open RotFrom
 
@@ -16,6 +17,24 @@ def addChild (c : Node G V) : Node G V → Node G V
 /-- `Collection.remove(self.children[j])`: the other children keep their order; no path is touched -/
 def removeChild (j : Nat) : Node G V → Node G V
   | mk o cs => mk o (cs.eraseIdx j)
+/-- the object at an address (list of child indices from the root) -/
+def objAt? : List Nat → Node G V → Option (Obj G V)
+  | [], mk o _ => some o
+  | i :: rest, mk _ cs =>
+    match cs[i]? with
+    | some c => objAt? rest c
+    | none => none
+
+/-- what one of the collection's own sensors reads, `[path index][pixel]`: `getBH_level2` (Model/Level2 `tensor`) on the
+source objects at the addresses `srcs` (each with its local field function) taken as ONE collection entry, observed by the
+sensor object at address `kaddr` with the given pixel data.  `none` if an address does not exist. -/
+def ownTensor [Mul G] [Inv G] [One G] [SMul G V] [Add V] [Sub V] [Zero V] [BEq G] (flipX : V → V) (t : Node G V)
+    (srcs : List (List Nat × (V → V))) (kaddr : List Nat) (pixels : List V) (pixShape : List Nat) (left : Bool) :
+    Option (List (List V)) := do
+  let leaves ← srcs.mapM fun a => (t.objAt? a.1).map fun o => Level2.Entry.leaf ⟨o.pos, o.ori, a.2⟩
+  let k ← t.objAt? kaddr
+  let T := Level2.tensor flipX [Level2.Entry.coll leaves] [⟨k.pos, k.ori, pixels, pixShape, left⟩]
+  T.head?.map fun Bm => Bm.map fun row => row.headD []
 end Node
 
 /-- one user-level operation of a history -/
